@@ -7,6 +7,10 @@ CFGS = {
     "mem": (["base mem", "fs base 0"], 0, []),
     "alt": (["base mem", "fs base 0", "fs alt 0 " + vfx.hexs("/r")], 1, ["createdirall 0:j72"]),
     "ovl": (["base mem", "base mem", "fs base 0", "fs base 1", "fs ovl 2 0 - 1 -"], 2, ["createdirall 1:j612f78"]),
+    # the overlay after a removal: /a existed in the lower layer and was removed through the overlay, so its
+    # deletion marker is present while the threads re-create it (the window repaired by a7ee48b)
+    "ovlrm": (["base mem", "base mem", "fs base 0", "fs base 1", "fs ovl 2 0 - 1 -"], 2,
+              ["createdirall 1:j61", "removedir 2:j61"]),
     "phys": (["base phys", "fs base 0"], 0, []),
     "altphys": (["base phys", "fs base 0", "fs alt 0 " + vfx.hexs("/r")], 1, ["createdirall 0:j72"]),
 }
@@ -21,12 +25,17 @@ def gen_progs(rng, tier):
     progs = []
     for cname, (cfg, target, setup) in CFGS.items():
         sets = PATHSETS if tier != "quick" else PATHSETS[:10] if cname == "mem" else rng.sample(PATHSETS, 4)
+        if cname == "ovlrm":
+            sets = [ps for ps in PATHSETS if all(q.startswith("a/") for q in ps)]
+            sets = sets if tier != "quick" else sets[:2]
         for i, paths in enumerate(sets):
             threads = [["createdirall " + vfx.ps(target, p)] for p in paths]
             if cname in ("phys", "altphys"):
                 mode = "stress %d" % (300 if tier == "quick" else 5000)
                 if len(paths) < 4:
                     threads = threads + [["createdirall " + vfx.ps(target, paths[0])]]
+            elif cname == "ovlrm":
+                mode = "pbound 2,%d" % (4000 if tier == "quick" else 60000)
             else:
                 cap = {"mem": 40000, "alt": 6000, "ovl": 1500}[cname] * (1 if tier == "quick" else 10)
                 mode = "explore %d" % cap
@@ -40,11 +49,12 @@ RULE = ("2-4 threads calling create_dir_all on path pairs/triples of depth 1-4 t
         "paths, ancestor/descendant, siblings, disjoint, multi-byte names): on MemoryFS, on AltrootFS over MemoryFS and on "
         "OverlayFS over two MemoryFS (upper empty, lower pre-populated) ALL interleavings at lock granularity are enumerated "
         "(depth-first over the scheduling choices at the verif-hooks yield points; capped for the overlay, whose create_dir "
-        "takes the lock ~15 times) and a sample is replayed on the Coq interleaved semantics; on PhysicalFS and AltrootFS over "
+        "takes the lock ~15 times; on the overlay after a removal of the common ancestor - deletion marker present - all "
+        "schedules with at most 2 preemptions) and a sample is replayed on the Coq interleaved semantics; on PhysicalFS and AltrootFS over "
         "it free-running OS threads are started behind a barrier for 300 (quick) / 5000 (thorough) rounds; oracle: every "
         "thread returns Ok and afterwards every requested path and each ancestor is a directory")
 ASSUMPTIONS = ["PhysicalFS: atomicity of mkdir(2) and EEXIST are the kernel's; the interleavings are sampled, not enumerated",
-               "no concurrent removals and no files in the way (the property's precondition)"]
+               "no concurrent removals and no files in the way (the property's precondition); a removal BEFORE the threads start is part of the explored setups"]
 BUILDS = [False]
 
 
@@ -58,7 +68,7 @@ def generate(rng, tier):
 
 def run_and_compare(progs, tier):
     explored = conclib.explore(progs, "c17")
-    replayable = [p for p in progs if p.cname in ("mem", "alt", "ovl")]
+    replayable = [p for p in progs if p.cname in ("mem", "alt", "ovl", "ovlrm")]
     model, nreplayed = conclib.replay_model(replayable, {p.name: explored[p.name] for p in replayable}, "c17",
                                             limit_per_prog=150)
     dis = []
